@@ -1,8 +1,224 @@
 //! Implementation side of driver op `codec` (see /verif/CONTRIBUTING.md).
+//!
+//! Every sub-command evaluates a one-line Jsonnet program through the real
+//! `Program` (string arguments are passed as the external variable `s`, so the
+//! Jsonnet lexer is not involved) and canonicalises the answer:
+//!
+//!   codec b64enc  <hexbytes>       std.base64([b0, b1, ...])          -> ok <hexstr>
+//!   codec b64encs <hexstr>         std.base64(s)                      -> ok <hexstr> | err codepoint
+//!   codec b64dec  <hexstr>         std.base64DecodeBytes(s)           -> ok <hexbytes> | err length | err char <hexchar>
+//!   codec b64decs <hexstr>         std.base64Decode(s)                -> ok <hexstr>   | (same errors)
+//!   codec radix <8|16> <hexstr>    std.parseOctal(s) / std.parseHex(s)-> ok <f64 bits, 16 hex digits> | err empty | err digit <hexchar> | err overflow
+//!   codec parseint <hexstr>        std.parseInt(s)                    -> (same)
+//!   codec utf8enc <hexstr>         std.encodeUTF8(s)                  -> ok <hexbytes>
+//!   codec utf8dec <hexbytes>       std.decodeUTF8([b0, ...])          -> ok <hexstr>
+//!   codec esc <bash|dollars|xml|json|python> <hexstr>  std.escapeString*(s) -> ok <hexstr>
+//!   codec hash <md5|sha1|sha256|sha512|sha3> <hexstr>  std.<name>(s)  -> ok <hexstr>   (implementation only)
 #![allow(unused_imports, dead_code)]
+use crate::ops_eval::Cb;
 use crate::util::*;
+use rsjsonnet_lang::arena::Arena;
+use rsjsonnet_lang::program::{EvalError, EvalErrorKind, Program, Value};
+
+enum Out {
+    Num(f64),
+    Str(String),
+    Bytes(Vec<u8>),
+    Err(String),
+}
+
+/// Inverse of `format!("{:?}", chr)` for a `char`.
+fn undebug_char(s: &str) -> Option<char> {
+    let inner = s.strip_prefix('\'')?.strip_suffix('\'')?;
+    let mut it = inner.chars();
+    let c0 = it.next()?;
+    if c0 != '\\' {
+        return if it.next().is_none() { Some(c0) } else { None };
+    }
+    let c1 = it.next()?;
+    let rest: String = it.collect();
+    match c1 {
+        'n' if rest.is_empty() => Some('\n'),
+        'r' if rest.is_empty() => Some('\r'),
+        't' if rest.is_empty() => Some('\t'),
+        '0' if rest.is_empty() => Some('\0'),
+        '\\' if rest.is_empty() => Some('\\'),
+        '\'' if rest.is_empty() => Some('\''),
+        '"' if rest.is_empty() => Some('"'),
+        'u' => {
+            let h = rest.strip_prefix('{')?.strip_suffix('}')?;
+            char::from_u32(u32::from_str_radix(h, 16).ok()?)
+        }
+        _ => None,
+    }
+}
+
+fn char_hex(c: char) -> String {
+    let mut b = [0u8; 4];
+    hex_enc(c.encode_utf8(&mut b).as_bytes())
+}
+
+fn canon_err(e: &EvalError) -> String {
+    match &e.kind {
+        EvalErrorKind::NumberOverflow { .. } => "err overflow".into(),
+        EvalErrorKind::Other { message, .. } => {
+            let m = message.as_str();
+            if m.starts_with("integer without digits")
+                || m.starts_with("octal integer without digits")
+                || m.starts_with("hexadecimal integer without digits")
+            {
+                return "err empty".into();
+            }
+            for p in [
+                "invalid base 10: ",
+                "invalid octal digit: ",
+                "invalid hexadecimal digit: ",
+            ] {
+                if let Some(r) = m.strip_prefix(p) {
+                    return match undebug_char(r) {
+                        Some(c) => format!("err digit {}", char_hex(c)),
+                        None => format!("err other {}", hex_enc(m.as_bytes())),
+                    };
+                }
+            }
+            if let Some(r) = m.strip_prefix("invalid base64 character: ") {
+                return match undebug_char(r) {
+                    Some(c) => format!("err char {}", char_hex(c)),
+                    None => format!("err other {}", hex_enc(m.as_bytes())),
+                };
+            }
+            if m == "length of base64 string is not a multiple of 4" {
+                return "err length".into();
+            }
+            if m == "only codepoints up to 255 can be base64 encoded" {
+                return "err codepoint".into();
+            }
+            format!("err other {}", hex_enc(m.as_bytes()))
+        }
+        _ => crate::ops_eval::eval_err(e),
+    }
+}
+
+/// Evaluate `src` with `std.extVar("s")` bound to `s`.
+fn eval1(src: &str, s: Option<&str>) -> Out {
+    let arena = Arena::new();
+    let mut program = Program::new(&arena);
+    let mut cb = Cb::new();
+    if let Some(s) = s {
+        let n = program.intern_str("s");
+        let t = program.value_to_thunk(&Value::string(s));
+        program.add_ext_var(n, &t);
+    }
+    let bytes = src.as_bytes();
+    let (ctx, _) = program.span_manager_mut().insert_source_context(bytes.len());
+    let thunk = match program.load_source(ctx, bytes, true, "<codec>") {
+        Ok(t) => t,
+        Err(e) => return Out::Err(crate::ops_eval::load_err(&e)),
+    };
+    match program.eval_value(&thunk, &mut cb) {
+        Err(e) => Out::Err(canon_err(&e)),
+        Ok(v) => {
+            if let Some(n) = v.as_number() {
+                Out::Num(n)
+            } else if let Some(s) = v.to_string() {
+                Out::Str(s)
+            } else if let Some(items) = v.to_array() {
+                let mut bs = Vec::with_capacity(items.len());
+                for it in items {
+                    match it.as_number() {
+                        Some(n) if n >= 0.0 && n <= 255.0 && n.fract() == 0.0 => bs.push(n as u8),
+                        _ => return Out::Err("err other -".into()),
+                    }
+                }
+                Out::Bytes(bs)
+            } else {
+                Out::Err("err other -".into())
+            }
+        }
+    }
+}
+
+fn show(o: Out) -> String {
+    match o {
+        Out::Num(n) => format!("ok {:016x}", n.to_bits()),
+        Out::Str(s) => format!("ok {}", hex_enc(s.as_bytes())),
+        Out::Bytes(b) => format!("ok {}", hex_enc(&b)),
+        Out::Err(e) => e,
+    }
+}
+
+fn byte_array_src(bs: &[u8]) -> String {
+    let items: Vec<String> = bs.iter().map(|b| b.to_string()).collect();
+    format!("[{}]", items.join(","))
+}
+
+fn hex_str(a: &str) -> Option<String> {
+    String::from_utf8(hex_dec(a)?).ok()
+}
 
 /// `codec <args...>`: one canonical answer line, or `None` for a malformed request.
-pub fn handle(_args: &[&str]) -> Option<String> {
-    None
+pub fn handle(args: &[&str]) -> Option<String> {
+    match args {
+        ["b64enc", h] => {
+            let bs = hex_dec(h)?;
+            Some(show(eval1(&format!("std.base64({})", byte_array_src(&bs)), None)))
+        }
+        ["b64encs", h] => {
+            let s = hex_str(h)?;
+            Some(show(eval1("std.base64(std.extVar('s'))", Some(&s))))
+        }
+        ["b64dec", h] => {
+            let s = hex_str(h)?;
+            Some(show(eval1("std.base64DecodeBytes(std.extVar('s'))", Some(&s))))
+        }
+        ["b64decs", h] => {
+            let s = hex_str(h)?;
+            Some(show(eval1("std.base64Decode(std.extVar('s'))", Some(&s))))
+        }
+        ["radix", r, h] => {
+            let s = hex_str(h)?;
+            let f = match *r {
+                "8" => "parseOctal",
+                "16" => "parseHex",
+                _ => return None,
+            };
+            Some(show(eval1(&format!("std.{}(std.extVar('s'))", f), Some(&s))))
+        }
+        ["parseint", h] => {
+            let s = hex_str(h)?;
+            Some(show(eval1("std.parseInt(std.extVar('s'))", Some(&s))))
+        }
+        ["utf8enc", h] => {
+            let s = hex_str(h)?;
+            match eval1("std.encodeUTF8(std.extVar('s'))", Some(&s)) {
+                // an empty array has no `to_string`/number: it comes back as Bytes([])
+                o => Some(show(o)),
+            }
+        }
+        ["utf8dec", h] => {
+            let bs = hex_dec(h)?;
+            Some(show(eval1(&format!("std.decodeUTF8({})", byte_array_src(&bs)), None)))
+        }
+        ["esc", kind, h] => {
+            let s = hex_str(h)?;
+            let f = match *kind {
+                "bash" => "escapeStringBash",
+                "dollars" => "escapeStringDollars",
+                "xml" => "escapeStringXML",
+                "json" => "escapeStringJson",
+                "python" => "escapeStringPython",
+                _ => return None,
+            };
+            Some(show(eval1(&format!("std.{}(std.extVar('s'))", f), Some(&s))))
+        }
+        ["hash", kind, h] => {
+            let s = hex_str(h)?;
+            let f = match *kind {
+                "md5" | "sha1" | "sha256" | "sha512" | "sha3" => *kind,
+                _ => return None,
+            };
+            Some(show(eval1(&format!("std.{}(std.extVar('s'))", f), Some(&s))))
+        }
+        _ => None,
+    }
 }
